@@ -118,6 +118,7 @@ type checkOpts struct {
 	only                   string
 	keepSMT                bool
 	workDir                string
+	skipUnclaimed          bool
 	quiet                  bool
 }
 
@@ -185,10 +186,21 @@ func runProperty(o checkOpts) ([]*funcResult, *Engine, []string, error) {
 		dir = o.workDir
 	}
 	_ = os.RemoveAll(dir)
+	var skip map[string]string
+	if o.skipUnclaimed {
+		if ent := loadLedger(o.verif)[o.prop]; ent != nil {
+			skip = ent.Unclaimed
+		}
+	}
 	for _, r := range results {
 		var obs []*Obligation
 		for _, ob := range r.ctx.obligations {
 			if ob.Result == "" {
+				if _, un := skip[ob.group()]; un && !ob.Auto && !ob.Smoke {
+					// recorded as undecided on the reference tree: not part of the claim, not re-tried in the quick tier
+					ob.Result, ob.Solver = "skipped-unclaimed", "-"
+					continue
+				}
 				obs = append(obs, ob)
 			}
 		}
@@ -232,7 +244,8 @@ func (c *vctx) litPrelude() string {
 		return c.lits[s].S
 	}
 	all := append([]string{""}, c.litOrder...)
-	for pred, lits := range c.strPredLits {
+	for _, pred := range sortedKeys(c.strPredLits) {
+		lits := c.strPredLits[pred]
 		for _, b := range all {
 			if !lits[name(b)] {
 				continue
@@ -300,6 +313,8 @@ func cmdCheck(args []string) int {
 	if *tier == "thorough" {
 		o.timeoutS = 60
 		o.agree = true
+	} else if !*dev && !*update {
+		o.skipUnclaimed = true
 	}
 	start := time.Now()
 	activeFindings = loadFindings(*verif)
